@@ -140,11 +140,17 @@ func c14CheckHistory(c *fw.Ctx, ops []extOp, fresh bool, useReset bool) {
 	}
 	for i, x := range ins {
 		for _, l := range []uint32{3072, 0, uint32(c.Rand.Intn(len(x) + 2))} {
-			key := hkey(x, l)
-			c.Trace(func() (string, any) { return key, mk(x, l, "detect") })
+			// entry points: mostly Detect, sometimes an oddly chunking reader, rarely a file
+			// (an extension is in force for every entry point, also for the empty input)
+			entry := pickEntry(c)
+			if forcedEntry == "" && len(x) == 0 && c.Rand.Intn(3) == 0 {
+				entry = []string{"DetectReaderChunked", "DetectFile"}[c.Rand.Intn(2)]
+			}
+			key := hkey(x, l) + "/" + entry
+			c.Trace(func() (string, any) { return key, mk(x, l, "detect:"+entry) })
 			var ch lib.Chain
-			ok := c.Guard(key, func() any { return mk(x, l, "panic") }, func() {
-				ch = lib.ChainOf(lib.Detect(x, l))
+			ok := c.Guard(key, func() any { return mk(x, l, "panic:"+entry) }, func() {
+				ch = lib.ChainOf(detectEntry(x, l, entry))
 			})
 			c.Eval(1)
 			if !ok {
@@ -154,7 +160,7 @@ func c14CheckHistory(c *fw.Ctx, ops []extOp, fresh bool, useReset bool) {
 			path := model.Walk(h, l)
 			want := model.ChainOfID(path[len(path)-1])
 			if ch.Bare() != want.Bare() {
-				c.Violate("extended-tree-mismatch", key, fmt.Sprintf("after %d Extend calls Detect gives %s, the first-match walk over the enlarged tree gives %s; input %s limit %d", len(ops), ch, want, fw.Quote(x, 80), l), mk(x, l, "model"))
+				c.Violate("extended-tree-mismatch", key, fmt.Sprintf("after %d Extend calls %s gives %s, the first-match walk over the enlarged tree gives %s; input %s limit %d", len(ops), entry, ch, want, fw.Quote(x, 80), l), mk(x, l, "model:"+entry))
 				continue
 			}
 			underExt := false
@@ -343,6 +349,9 @@ func init() {
 			if p.What == "concurrent-registration" {
 				c14Run(c, fw.Batch{Kind: "concurrent-registration", N: 50})
 				return
+			}
+			if i := strings.Index(p.What, ":"); i >= 0 {
+				forcedEntry = p.What[i+1:]
 			}
 			c14CheckHistory(c, p.Ops, p.Fresh, true)
 		},
